@@ -144,10 +144,20 @@ theorem partition_ok_iff {α β : Type} (a : List α) (d : List β) (ci : List I
             · exact absurd ⟨h1, h2, h3⟩ h
             · exact Or.inr (Or.inr h3)
           · exact Or.inr (Or.inl h2)
-      obtain ⟨e, he⟩ := partition_err a d ci lens h'
-      rw [he] at hr; cases hr
+      rw [partition_err a d ci lens h'] at hr; cases hr
   · intro ⟨hne, ha, hd⟩
     exact ⟨_, partition_eq a d ci lens hne ha hd⟩
+
+/-- the error raised on inconsistent input: IndexError for empty `lengths` (the `lengths[0]`
+argument of the debug log), DataInvalid when the lengths do not sum to the length of both flat
+arrays — also for empty flat arrays -/
+theorem partition_error_kind {α β : Type} (a : List α) (d : List β) (ci : List Int) (lens : List Nat)
+    (h : lens = [] ∨ lens.sum ≠ a.length ∨ lens.sum ≠ d.length) :
+    partition a d ci lens = .error (if lens = [] then .indexError else .dataInvalid) :=
+  partition_err a d ci lens h
+
+example : partition ([] : List Int) ([] : List Rat) [] [1, 2] = .error .dataInvalid := by decide
+example : partition [1, 2] [(1 : Rat), 2] [] [] = .error .indexError := by decide
 
 /-- rectangular (ndarray) output iff all lengths are equal, ragged (RaggedArray) otherwise -/
 theorem partition_square_iff {α β : Type} (a : List α) (d : List β) (ci : List Int)
